@@ -832,14 +832,405 @@ fn check_transport(c: &TCase, rec: &CaseRec, tot: &Totals) -> Check {
 }
 
 // ---------------------------------------------------------------------------------------------
+// flood: forgeries on many unseen SSRCs against streams whose state cannot be rebuilt from scratch
+// ---------------------------------------------------------------------------------------------
+
+/// One forged datagram of a flood; every flood packet carries its own, never-seen SSRC.
+#[derive(Clone, Debug, Serialize, Deserialize)]
+pub struct FloodPkt {
+    /// 0 genuine SRTP wire with the SSRC rewritten, 1 genuine SRTCP wire with the SSRC rewritten,
+    /// 2 SRTP under an unrelated key, 3 SRTCP under an unrelated key, 4 cleartext RTP,
+    /// 5 genuine SRTP wire with SSRC rewritten and the sequence number moved far away
+    pub kind: u8,
+    pub base: u16,
+    pub seed: u32,
+}
+
+#[derive(Clone, Debug, Serialize, Deserialize)]
+pub struct GenStep {
+    pub stream: u8,
+    pub delta: i32,
+    pub rtcp: bool,
+}
+
+#[derive(Clone, Debug, Serialize, Deserialize)]
+pub struct Round {
+    pub ssrc_base: u32,
+    pub flood: Vec<FloodPkt>,
+    /// genuine packets that arrive in the middle of the flood: (position, packet)
+    pub during: Vec<(u16, GenStep)>,
+    /// the genuine streams continue afterwards
+    pub after: Vec<GenStep>,
+}
+
+#[derive(Clone, Debug, Serialize, Deserialize)]
+pub struct FloodCase {
+    pub keys: Keys,
+    pub streams: Vec<StreamSpec>,
+    /// 2^16 wraps each stream completes before the first flood (stream 0: at least one)
+    pub wraps: Vec<u8>,
+    /// index stride of the climb (the receiver sees only a few packets per wrap)
+    pub strides: Vec<u16>,
+    pub shape: Shape,
+    pub rounds: Vec<Round>,
+    /// additionally run the same history through RtpTransport::receive
+    pub transport: bool,
+}
+
+fn genstep_strategy() -> impl Strategy<Value = GenStep> {
+    (0..4u8, prop_oneof![6 => Just(1i32), 3 => 2..=100i32, 1 => 1000..=20000i32, 2 => -20..=-1i32], prop::bool::weighted(0.2))
+        .prop_map(|(stream, delta, rtcp)| GenStep { stream, delta, rtcp })
+}
+
+fn round_strategy() -> impl Strategy<Value = Round> {
+    (
+        any::<u32>(),
+        prop::collection::vec((0..6u8, any::<u16>(), any::<u32>()).prop_map(|(kind, base, seed)| FloodPkt { kind, base, seed }), 28..=80)
+            .prop_flat_map(|v| {
+                // mostly above the 32-context mark, sometimes just around it
+                let n = v.len();
+                prop_oneof![5 => Just(n.max(33)), 1 => Just(n), 1 => 28..=36usize].prop_map(move |k| {
+                    let mut w = v.clone();
+                    while w.len() < k {
+                        let x = w[w.len() % n].clone();
+                        w.push(FloodPkt { seed: x.seed.rotate_left(11) ^ w.len() as u32, ..x });
+                    }
+                    w.truncate(k.max(1));
+                    w
+                })
+            }),
+        prop::collection::vec((any::<u16>(), genstep_strategy()), 0..=4),
+        prop::collection::vec(genstep_strategy(), 2..=10),
+    )
+        .prop_map(|(ssrc_base, flood, during, after)| Round { ssrc_base, flood, during, after })
+}
+
+fn flood_strategy() -> impl Strategy<Value = FloodCase> {
+    (
+        keys_strategy(),
+        streams_strategy(4),
+        prop::collection::vec(prop_oneof![1 => Just(0u8), 4 => Just(1u8), 2 => Just(2u8), 1 => Just(3u8)], 4),
+        prop::collection::vec(prop_oneof![Just(30000u16), Just(32767u16), 9000..=32767u16], 4),
+        shape_strategy(60, 4),
+        prop::collection::vec(round_strategy(), 1..=2),
+        prop::bool::weighted(0.35),
+    )
+        .prop_map(|(keys, streams, mut wraps, strides, mut shape, rounds, transport)| {
+            wraps[0] = wraps[0].max(1);
+            shape.pt = 96 + shape.pt % 32;
+            FloodCase { keys, streams, wraps, strides, shape, rounds, transport }
+        })
+}
+
+/// Anything that takes datagrams and says what came out.
+trait Rx {
+    fn take(&mut self, rtcp: bool, wire: &[u8]) -> Result<Out, String>;
+}
+
+impl Rx for SrtpSession {
+    fn take(&mut self, rtcp: bool, wire: &[u8]) -> Result<Out, String> {
+        offer(self, rtcp, wire)
+    }
+}
+
+/// `RtpTransport` with an SRTP session installed, observed at its listeners.
+struct TransportRx {
+    tr: RtpTransport,
+    rtp_rx: mpsc::Receiver<(RtpPacket, SocketAddr)>,
+    rtcp_rx: mpsc::Receiver<Vec<RtcpPacket>>,
+    from: SocketAddr,
+    buf: Vec<u8>,
+}
+
+impl TransportRx {
+    fn new(keys: &Keys) -> Self {
+        let (_tx, rx) = watch::channel(None);
+        let from: SocketAddr = "127.0.0.1:40405".parse().unwrap();
+        let conn = IceConn::new(rx, from, None);
+        let tr = RtpTransport::new(conn, true);
+        tr.start_srtp(keys.receiver());
+        let (rtp_tx, rtp_rx) = mpsc::channel::<(RtpPacket, SocketAddr)>(64);
+        let (rtcp_tx, rtcp_rx) = mpsc::channel::<Vec<RtcpPacket>>(64);
+        tr.register_provisional_listener(rtp_tx);
+        tr.register_rtcp_listener(rtcp_tx);
+        TransportRx { tr, rtp_rx, rtcp_rx, from, buf: Vec::new() }
+    }
+}
+
+impl Rx for TransportRx {
+    fn take(&mut self, _rtcp: bool, wire: &[u8]) -> Result<Out, String> {
+        futures::executor::block_on(self.tr.receive(Bytes::copy_from_slice(wire), self.from, &mut self.buf));
+        let mut rtp: Vec<RtpPacket> = std::iter::from_fn(|| self.rtp_rx.try_recv().ok()).map(|x| x.0).collect();
+        let mut rtcp: Vec<Vec<RtcpPacket>> = std::iter::from_fn(|| self.rtcp_rx.try_recv().ok()).collect();
+        match (rtp.len(), rtcp.len()) {
+            (0, 0) => Err("nothing delivered".into()),
+            (1, 0) => Ok(Out::Rtp(rtp.pop().unwrap())),
+            (0, 1) => marshal_rtcp_packets(&rtcp.pop().unwrap()).map(Out::Rtcp).map_err(|e| format!("delivered RTCP does not marshal: {e}")),
+            (a, b) => Ok(Out::Rtcp(format!("{a} RTP and {b} RTCP deliveries for one datagram").into_bytes())),
+        }
+    }
+}
+
+enum FloodEv {
+    Genuine(usize),
+    Forged { bytes: Vec<u8>, kind: u8 },
+}
+
+#[derive(Default)]
+struct FloodTotals {
+    cases_over_mark_with_roc: AtomicU64,
+    cases_over_mark: AtomicU64,
+    forged_ssrcs: AtomicU64,
+    transport_cases: AtomicU64,
+}
+
+struct FloodPlan {
+    gen_: Vec<Genuine>,
+    events: Vec<FloodEv>,
+    /// per round: distinct never-seen SSRCs carried by its forgeries
+    forged_ssrcs: Vec<usize>,
+    /// per genuine packet: (stream, rollover counter or 0 for RTCP)
+    meta: Vec<(usize, u32)>,
+}
+
+fn flood_plan(c: &FloodCase) -> Result<FloodPlan, Fail> {
+    let ns = c.streams.len();
+    let mut items: Vec<Item> = Vec::new();
+    let mut shape_n = 0u32;
+    let mut push = |items: &mut Vec<Item>, stream: usize, delta: i32, rtcp: bool| {
+        shape_n += 1;
+        let what = if rtcp {
+            Payload::Pli { media: 0x0A0B_0C00 + shape_n }
+        } else {
+            let mut sh = c.shape.clone();
+            sh.seed = sh.seed.wrapping_add(shape_n);
+            sh.ts = sh.ts.wrapping_add(shape_n * 160);
+            Payload::Rtp { delta, shape: sh }
+        };
+        items.push(Item { stream: stream as u8, what, delay: 0, drop: false, dup: None });
+    };
+    // climb: round robin, every stream walks up in big strides until it has completed its wraps
+    let mut idx: Vec<u64> = c.streams.iter().map(|s| s.start_seq as u64).collect();
+    let mut started = vec![false; ns];
+    loop {
+        let mut progressed = false;
+        for s in 0..ns {
+            let target = (c.wraps[s % c.wraps.len()] as u64) << 16;
+            if started[s] && idx[s] >= target {
+                continue;
+            }
+            let stride = c.strides[s % c.strides.len()].clamp(9000, 32767) as i32;
+            if started[s] {
+                idx[s] += stride as u64;
+            }
+            started[s] = true;
+            push(&mut items, s, stride, false);
+            progressed = true;
+        }
+        if !progressed {
+            break;
+        }
+    }
+    // one SRTCP packet per stream before the flood (SRTCP index state exists too)
+    for s in 0..ns {
+        push(&mut items, s, 0, true);
+    }
+    let n_climb = items.len();
+    // rounds: remember where each round's genuine packets sit in `items`
+    let mut round_items: Vec<(Vec<(usize, usize)>, Vec<usize>)> = Vec::new();
+    for r in &c.rounds {
+        let mut during: Vec<(usize, usize)> = Vec::new();
+        let mut d = r.during.clone();
+        d.sort_by_key(|x| x.0);
+        for (pos, g) in &d {
+            during.push((pick(*pos, r.flood.len() + 1), items.len()));
+            push(&mut items, g.stream as usize % ns, g.delta, g.rtcp);
+        }
+        let mut after = Vec::new();
+        for g in &r.after {
+            after.push(items.len());
+            push(&mut items, g.stream as usize % ns, g.delta, g.rtcp);
+        }
+        round_items.push((during, after));
+    }
+    let gen_ = build_genuine(&c.keys, &c.streams, false, &items)?;
+    let meta: Vec<(usize, u32)> =
+        items.iter().zip(gen_.iter()).map(|(it, g)| (it.stream as usize % ns, if g.rtcp { 0 } else { g.index })).collect();
+
+    let mut events: Vec<FloodEv> = (0..n_climb).map(FloodEv::Genuine).collect();
+    let mut used: std::collections::HashSet<u32> = c.streams.iter().map(|s| s.ssrc).collect();
+    let rtp_idx: Vec<usize> = (0..gen_.len()).filter(|i| !gen_[*i].rtcp).collect();
+    let rtcp_idx: Vec<usize> = (0..gen_.len()).filter(|i| gen_[*i].rtcp).collect();
+    let mprof = c04::mprofile(c.keys.profile);
+    let mut forged_ssrcs = Vec::new();
+    for (r, (during, after)) in c.rounds.iter().zip(round_items.iter()) {
+        let mut n_ssrc = 0usize;
+        let mut di = 0;
+        for (i, f) in r.flood.iter().enumerate() {
+            while di < during.len() && during[di].0 == i {
+                events.push(FloodEv::Genuine(during[di].1));
+                di += 1;
+            }
+            let mut ssrc = r.ssrc_base.wrapping_add((i as u32 + 1).wrapping_mul(0x9E37_79B1));
+            while !used.insert(ssrc) {
+                ssrc = ssrc.wrapping_add(0x0100_0001);
+            }
+            n_ssrc += 1;
+            let kind = f.kind % 6;
+            let bytes = match kind {
+                1 | 3 => {
+                    let g = &gen_[rtcp_idx[pick(f.base, rtcp_idx.len())]];
+                    let mut b = if kind == 1 {
+                        g.wire.clone()
+                    } else {
+                        let key = expand(f.seed, 16);
+                        let salt = expand(f.seed.rotate_left(9) ^ 0x5bd1_e995, mprof.salt_len());
+                        let mut plain = g.plain.clone();
+                        plain[4..8].copy_from_slice(&ssrc.to_be_bytes());
+                        Srtp::new(mprof, &key, &salt).unwrap().protect_rtcp(&plain, 1 + f.seed % 1000, true).unwrap()
+                    };
+                    b[4..8].copy_from_slice(&ssrc.to_be_bytes());
+                    b
+                }
+                _ => {
+                    let g = &gen_[rtp_idx[pick(f.base, rtp_idx.len())]];
+                    let mut b = match kind {
+                        2 => {
+                            let key = expand(f.seed, 16);
+                            let salt = expand(f.seed.rotate_left(9) ^ 0x5bd1_e995, mprof.salt_len());
+                            let mut plain = g.plain.clone();
+                            plain[8..12].copy_from_slice(&ssrc.to_be_bytes());
+                            Srtp::new(mprof, &key, &salt).unwrap().protect_rtp(&plain, g.index).unwrap()
+                        }
+                        4 => {
+                            let mut p = g.plain.clone();
+                            p.extend_from_slice(&expand(f.seed, 16));
+                            p
+                        }
+                        _ => g.wire.clone(),
+                    };
+                    b[8..12].copy_from_slice(&ssrc.to_be_bytes());
+                    if kind == 5 {
+                        let seq = model::rtp_seq(&b).wrapping_add(20000 + (f.seed % 25000) as u16);
+                        b[2..4].copy_from_slice(&seq.to_be_bytes());
+                    }
+                    b
+                }
+            };
+            events.push(FloodEv::Forged { bytes, kind });
+        }
+        while di < during.len() {
+            events.push(FloodEv::Genuine(during[di].1));
+            di += 1;
+        }
+        for a in after {
+            events.push(FloodEv::Genuine(*a));
+        }
+        forged_ssrcs.push(n_ssrc);
+    }
+    Ok(FloodPlan { gen_, events, forged_ssrcs, meta })
+}
+
+/// Drive one receiver through the events next to a twin that never sees the forgeries.
+/// Returns: did a stream with ROC >= 1 get a genuine packet accepted (by the twin) after a flood.
+fn flood_drive(rx: &mut dyn Rx, twin: &mut SrtpSession, plan: &FloodPlan, level: &str, tot: &Totals) -> Result<bool, Fail> {
+    let mut forged_so_far = 0usize;
+    let mut roc_after = false;
+    for (k, ev) in plan.events.iter().enumerate() {
+        match ev {
+            FloodEv::Forged { bytes, kind } => {
+                let rtcp = rustrtc::rtp::is_rtcp(bytes);
+                if let Ok(o) = rx.take(rtcp, bytes) {
+                    return Err(Fail::new(
+                        format!("{level}flood-forgery-accepted"),
+                        format!("event {k}: forged datagram (kind {kind}, {} bytes) on an unseen SSRC was accepted: {o:?}", bytes.len()),
+                    ));
+                }
+                forged_so_far += 1;
+                tot.forgeries.fetch_add(1, Ordering::Relaxed);
+            }
+            FloodEv::Genuine(i) => {
+                let g = &plan.gen_[*i];
+                let want = offer(twin, g.rtcp, &g.wire);
+                let got = rx.take(g.rtcp, &g.wire);
+                if want != got {
+                    let (stream, roc) = plan.meta[*i];
+                    let sig = if want.is_ok() && got.is_err() { "genuine-rejected-after-ssrc-flood" } else { "twin-divergence-after-ssrc-flood" };
+                    return Err(Fail::new(
+                        format!("{level}{sig}"),
+                        format!(
+                            "event {k}: genuine {} #{i} of stream {stream} (ssrc {:#x}, seq {}, roc {roc}) after {forged_so_far} rejected forgeries on unseen SSRCs gives {:?}; the twin that saw only genuine traffic gives {:?}",
+                            if g.rtcp { "SRTCP" } else { "SRTP" },
+                            g.ssrc,
+                            if g.rtcp { 0 } else { model::rtp_seq(&g.wire) },
+                            got.as_ref().map(|_| "Ok(..)"),
+                            want.as_ref().map(|_| "Ok(..)")
+                        ),
+                    ));
+                }
+                tot.genuine_compared.fetch_add(1, Ordering::Relaxed);
+                if want.is_ok() {
+                    tot.genuine_accepted.fetch_add(1, Ordering::Relaxed);
+                    if forged_so_far > 0 && !g.rtcp && plan.meta[*i].1 >= 1 {
+                        roc_after = true;
+                    }
+                }
+            }
+        }
+    }
+    Ok(roc_after)
+}
+
+fn check_flood(c: &FloodCase, rec: &CaseRec, tot: &Totals, ft: &FloodTotals) -> Check {
+    let plan = flood_plan(c)?;
+    let mut s = c.keys.receiver();
+    let mut twin = c.keys.receiver();
+    let roc_after = flood_drive(&mut s, &mut twin, &plan, "", tot)?;
+    if c.transport {
+        let mut t = TransportRx::new(&c.keys);
+        let mut twin = c.keys.receiver();
+        flood_drive(&mut t, &mut twin, &plan, "transport-", tot)?;
+        rec.label("flood:also-through-transport");
+        ft.transport_cases.fetch_add(1, Ordering::Relaxed);
+    }
+    let max_f = plan.forged_ssrcs.iter().copied().max().unwrap_or(0);
+    let total_f: usize = plan.forged_ssrcs.iter().sum();
+    let over = total_f + c.streams.len() > 32;
+    ft.forged_ssrcs.fetch_add(total_f as u64, Ordering::Relaxed);
+    if over {
+        ft.cases_over_mark.fetch_add(1, Ordering::Relaxed);
+    }
+    if max_f > 32 && roc_after {
+        ft.cases_over_mark_with_roc.fetch_add(1, Ordering::Relaxed);
+        rec.label("flood:>32-forged-ssrcs+roc>=1-stream-continues");
+    }
+    rec.set_nontrivial(over && roc_after);
+    rec.label(format!("flood:{}", PROFILE_NAMES[(c.keys.profile & 3) as usize]));
+    rec.label(if max_f > 32 { "flood:forged-ssrcs>32-in-one-flood" } else { "flood:forged-ssrcs<=32-per-flood" });
+    rec.label(format!("flood:genuine-streams={}", c.streams.len()));
+    rec.label(format!("flood:max-roc={}", plan.meta.iter().map(|m| m.1).max().unwrap_or(0).min(4)));
+    if c.rounds.len() > 1 {
+        rec.label("flood:two-floods");
+    }
+    if c.rounds.iter().any(|r| !r.during.is_empty()) {
+        rec.label("flood:genuine-inside-flood");
+    }
+    if plan.events.iter().any(|e| matches!(e, FloodEv::Forged { kind: 1 | 3, .. })) {
+        rec.label("flood:rtcp-forgeries");
+    }
+    Ok(())
+}
+
+// ---------------------------------------------------------------------------------------------
 
 pub fn run(ctx: &mut Ctx) {
     ctx.level = "fault_enumeration";
-    ctx.rule = "flips: a genuine SRTP or SRTCP packet per case (all four profiles; RTP with CSRC/extension/padding, start SEQ boundary-biased so 0-3 accepted predecessors may cross 2^16); packets <= 160 bytes get every single-bit flip, every truncation length and 1..20 appended bytes, larger ones 96 sampled bit positions and 48 lengths; applied to the not-yet-delivered packet and to the last accepted one. interleave: C04's history generator (1-3 SSRCs, RTP and RTCP mixed, wraps, reordering, loss, duplicates) with 1..40 forgeries (11 mutation classes) derived from any genuine packet and inserted at generated positions; twin session sees the genuine packets only. transport: the same through RtpTransport::receive (one SSRC, RTP + PLI). Non-trivial = at least one forgery was processed before a genuine packet of the same SSRC that the twin accepts (flips: always, by construction); distinct by case digest.".into();
+    ctx.rule = "flips: a genuine SRTP or SRTCP packet per case (all four profiles; RTP with CSRC/extension/padding, start SEQ boundary-biased so 0-3 accepted predecessors may cross 2^16); packets <= 160 bytes get every single-bit flip, every truncation length and 1..20 appended bytes, larger ones 96 sampled bit positions and 48 lengths; applied to the not-yet-delivered packet and to the last accepted one. interleave: C04's history generator (1-3 SSRCs, RTP and RTCP mixed, wraps, reordering, loss, duplicates) with 1..40 forgeries (11 mutation classes) derived from any genuine packet and inserted at generated positions; twin session sees the genuine packets only. transport: the same through RtpTransport::receive (one SSRC, RTP + PLI). flood: 1-4 genuine streams are first walked through 0-3 (stream 0: 1-3) wraps of 2^16 in strides of 9000..32767 so that their state (ROC, highest SEQ, SRTCP index) cannot be rebuilt from scratch, then 1-2 floods of 28..80 (mostly 33..80) forgeries, each on its own never-seen SSRC (SSRC-rewritten genuine SRTP/SRTCP, wrong-key SRTP/SRTCP, cleartext, far sequence), with genuine packets inside and after each flood; twin oracle at the SrtpSession level and (35% of cases) through RtpTransport::receive; non-trivial there = forged + genuine SSRCs exceed the 32-context mark and a ROC >= 1 stream has a packet accepted by the twin afterwards. Otherwise non-trivial = at least one forgery was processed before a genuine packet of the same SSRC that the twin accepts (flips: always, by construction); distinct by case digest.".into();
     ctx.assumptions = vec![
         "a forgery is a datagram that differs in at least one bit from every packet the key holder produced in the case; verbatim duplicates are treated as genuine traffic (rustrtc documents no replay list) and are shown to both twins".into(),
         "forging success by chance (2^-32 per attempt under the 4-byte tags) is ignored".into(),
         "sender and receiver direction use different master keys (as DTLS-SRTP and SDES provide), so a reflected packet is a forgery".into(),
+        "flood: the number of genuine streams stays below the 32-context mark, so any eviction pressure comes from rejected packets only (eviction caused by genuinely new streams is outside the statement)".into(),
         "through the transport a forgery counts as rejected when nothing reaches the RTP listener, RTCP listener or ingress observer and the received-packet counter does not move".into(),
     ];
     let tot = Totals::default();
@@ -853,6 +1244,19 @@ pub fn run(ctx: &mut Ctx) {
     let n_tr = ctx.scale(5000u32, 75_000u32);
     ctx.sub("transport", n_tr, tcase_strategy(), |c: &TCase, rec: &CaseRec| check_transport(c, rec, &tot));
     let t_tr = t0.elapsed().as_secs_f64() - t_flips - t_mix;
+    let ft = FloodTotals::default();
+    let n_fl = ctx.scale(1500u32, 30_000u32);
+    ctx.sub("flood", n_fl, flood_strategy(), |c: &FloodCase, rec: &CaseRec| check_flood(c, rec, &tot, &ft));
+    let t_fl = t0.elapsed().as_secs_f64() - t_flips - t_mix - t_tr;
+    ctx.set_extra(
+        "flood_totals",
+        json!({
+            "cases_with_more_than_32_forged_ssrcs_in_one_flood_and_a_roc_ge_1_stream_continuing": ft.cases_over_mark_with_roc.load(Ordering::Relaxed),
+            "cases_where_contexts_exceed_32": ft.cases_over_mark.load(Ordering::Relaxed),
+            "distinct_forged_ssrcs": ft.forged_ssrcs.load(Ordering::Relaxed),
+            "cases_also_run_through_transport": ft.transport_cases.load(Ordering::Relaxed),
+        }),
+    );
     ctx.set_exhaustive(false);
     ctx.set_extra(
         "totals",
@@ -864,5 +1268,5 @@ pub fn run(ctx: &mut Ctx) {
             "genuine_deliveries_accepted": tot.genuine_accepted.load(Ordering::Relaxed),
         }),
     );
-    ctx.set_extra("wall_s_by_sub", json!({"flips": t_flips, "interleave": t_mix, "transport": t_tr}));
+    ctx.set_extra("wall_s_by_sub", json!({"flips": t_flips, "interleave": t_mix, "transport": t_tr, "flood": t_fl}));
 }
